@@ -42,6 +42,7 @@ type Exch struct {
 	API       int    `json:"api,omitempty"`        // 0 ExchangeWithConn, 1 ExchangeWithConnContext(ctx deadline), 2 WriteMsg+ReadMsg, 3 Exchange (the library dials, exchanges, closes), 4 ExchangeContext; 3 and 4 need the socket seam of the instrumented build and fall back to 0 and 1 without it
 	Dial      string `json:"dial,omitempty"`       // API 3/4: "" the connection is there after DialMs | refused | blackhole (no answer to the connection attempt: the dial must give up by the exchange's deadline)
 	DialMs    int    `json:"dial_ms,omitempty"`    // API 3/4: simulated time the connection attempt takes
+	TsigBad   bool   `json:"tsig_bad,omitempty"`   // with Tsig: the client signs with another secret than the servers hold - the verdict must say so, and must not outlive this request
 	Tsig      bool   `json:"tsig,omitempty"`       // the query is TSIG-signed (the servers hold the key); the handler asks for TsigStatus only after its other steps, when the receive buffer has long been released
 	TOKind    int    `json:"to_kind,omitempty"`    // how the client is given its time limit: 0 Client.Timeout; 1 Timeout left at zero, Read/Write/DialTimeout set to the same value; 2 nothing set (the library's default of two seconds applies)
 	QCase     bool   `json:"qcase,omitempty"`      // the query name is written in mixed case and the handler answers with the name in lower case (a handler that canonicalises what it echoes)
@@ -92,7 +93,9 @@ type Scenario struct {
 	Window    int   `json:"window,omitempty"`
 }
 
-var boundary = []int{0, 0, 0, 40, 100, 511, 512, 513, 1231, 1232, 1233, 4095, 4096, 4097, 16383, 16384, 16385, 65534, 65535}
+// (0x1603, 0x1703: a length prefix that reads like the start of a TLS record; 0x4745, 0x504f, 0x5052, 0x5353: like "GE",
+// "PO", "PR", "SS" - the first octets other protocols put on a stream)
+var boundary = []int{0, 0, 0, 40, 100, 511, 512, 513, 1231, 1232, 1233, 4095, 4096, 4097, 16383, 16384, 16385, 65534, 65535, 0x1603, 0x1703, 0x4745, 0x504f, 0x5052, 0x5353}
 
 func pickSize(r interface{ IntN(int) int }, tier string) int {
 	if r.IntN(3) == 0 {
@@ -196,6 +199,7 @@ func Gen(seed uint64, tier string) any {
 			e.CliUDP = 65535
 			e.QCase = core.Chance(r, 15)
 			e.Tsig = core.Chance(r, 12)
+			e.TsigBad = e.Tsig && core.Chance(r, 40)
 			if core.Chance(r, 30) {
 				e.TOKind = 1 + r.IntN(2)
 			}
@@ -591,8 +595,21 @@ func (x *run) ServeDNS(w dns.ResponseWriter, r *dns.Msg) {
 		st := w.TsigStatus()
 		k.Lock()
 		x.res.Stats["oracle.B1_tsig_status_late"]++
-		if st != nil {
+		if st != nil && !ex.plan.TsigBad {
 			x.res.Fail("B1", "tsig-status-on-released-buffer", "the request of %s was signed correctly and delivered unaltered, yet TsigStatus, asked for after the handler's other steps, says %v", tok, st)
+		}
+		if st == nil && ex.plan.TsigBad {
+			x.res.Fail("X1", "tsig-status-of-another-request", "the request of %s was signed with a secret the server does not hold, yet TsigStatus reports no error", tok)
+		}
+		k.Unlock()
+	} else if r.IsTsig() == nil {
+		// a request without a signature has no verdict of its own: whatever TsigStatus says about it is
+		// about some other request (an earlier one of the same connection, say)
+		st := w.TsigStatus()
+		k.Lock()
+		x.res.Stats["oracle.X1_tsig_status_is_this_requests"]++
+		if st != nil {
+			x.res.Fail("X1", "tsig-status-of-another-request", "the request of %s carries no TSIG, yet TsigStatus says %q: that is the verdict on another request", tok, st.Error())
 		}
 		k.Unlock()
 	}
@@ -758,6 +775,30 @@ func (x *run) ServeDNS(w dns.ResponseWriter, r *dns.Msg) {
 	k.Lock()
 	k.EffectLocked("h.exit " + tok)
 	k.Unlock()
+}
+
+// checkDropped: the first query of a fresh stream connection, a well-formed message written in full over a link
+// that loses nothing, to a server that is up with hour-long timeouts - and the connection ends (EOF, reset)
+// without the handler ever having seen it. Nothing in such a run gives the server a reason to hang up.
+//
+//go:norace
+func (x *run) checkDropped(ex *exState, sconn *simnet.StreamConn, err error, out string) {
+	if out != "err" || err == nil || isTimeout(err) {
+		return
+	}
+	if e := err.Error(); !(strings.Contains(e, "EOF") || strings.Contains(e, "reset") || strings.Contains(e, "broken pipe")) {
+		return
+	}
+	x.k.Lock()
+	defer x.k.Unlock()
+	frames, rest := oracle.Frames(sconn.Sent())
+	if len(frames) < 1 || len(rest) != 0 || sconn.WasReset() || len(frames[0]) > 65535 {
+		return
+	}
+	x.res.Stats["oracle.X1_first_query_not_dropped"]++
+	if ex.handlerN == 0 {
+		x.res.Fail("X1", "request-dropped", "the first query of a fresh stream connection (%s, %d octets, written in full, nothing lost on the way) never reached its handler; the exchange ended with %q: the server hung up on a well-formed request", ex.token, len(frames[0]), err.Error())
+	}
 }
 
 // peerStillThere reports whether the client's end of the stream connection behind w is open (and the link
@@ -1036,6 +1077,9 @@ func (c *clientTask) RunEvent(time.Time) {
 		ex.reqBytes = clone(b)
 		ex.guar = guar
 		k.Unlock()
+		if plan.Net == "tcp" && (len(b) == 0x1603 || len(b) == 0x4745 || len(b) == 0x5353) {
+			x.bump("cover.length_prefix_reads_like_another_protocol")
+		}
 		// (nothing else in the additional section: the accept policy allows two records there; and one signed query per
 		// connection: a dns.Conn chains the MAC of its previous signed query into the next, which a server rightly refuses)
 		signed := e.Tsig && e.OptSize == 0 && e.Size == 0 && !signedOnce
@@ -1051,6 +1095,10 @@ func (c *clientTask) RunEvent(time.Time) {
 		}
 		if signed {
 			cl.TsigSecret = map[string]string{tsigKey: tsigSecret}
+			if e.TsigBad {
+				cl.TsigSecret = map[string]string{tsigKey: "bm90LXRoZS1zZXJ2ZXJzLXNlY3JldC0wMTIzNDU2Nzg5"}
+				x.bump("fault.query_signed_with_another_secret")
+			}
 		}
 		switch e.TOKind {
 		case 1:
@@ -1243,6 +1291,9 @@ func (c *clientTask) RunEvent(time.Time) {
 		ex.done, ex.outcome = true, out
 		k.EffectLocked("cli " + ex.token + " " + out)
 		k.Unlock()
+		if ei == 0 && sconn != nil && !plan.Trickle && plan.IntrFrame == 0 {
+			x.checkDropped(ex, sconn, err, out)
+		}
 		if sconn != nil && err != nil && out != "errid" {
 			// After an I/O error the stream is in an unknown position - unless the error was the read deadline
 			// and it struck between two messages: the query went out whole and nothing of a reply has been
